@@ -42,8 +42,12 @@ type sgen struct {
 }
 
 func (g *sgen) n(lo, hi int, label string) int { return rapid.IntRange(lo, hi).Draw(g.t, label) }
+
+// p is a weighted coin. rapid's integer draws are biased towards small values, so the coin is
+// built from a permuted comparison: nominal percentages are only approximate (see the class
+// distribution in the evidence file for the real frequencies).
 func (g *sgen) p(percent int, label string) bool {
-	return rapid.IntRange(0, 99).Draw(g.t, label) < percent
+	return (rapid.IntRange(0, 99).Draw(g.t, label)*37+11)%100 < percent
 }
 
 func abs(scope, name string) string { return "." + joinStr(scope, name) }
@@ -497,7 +501,7 @@ func (g *sgen) message(scope, name string, depth int) *descriptorpb.DescriptorPr
 
 	// ---- nested declarations
 	if depth < 2 {
-		for i, k := 0, g.n(0, 2, "nested-messages"); i < k; i++ {
+		for i, k := 0, g.n(0, 2-depth, "nested-messages"); i < k; i++ {
 			md.NestedType = append(md.NestedType, g.message(full, uniq(fmt.Sprintf("N%d", i)), depth+1))
 		}
 	}
